@@ -205,7 +205,8 @@ def run(ck):
              'c1ccc2c(c1)Cc1ccccc1-2', 'c1cc2ccc3cccc4ccc(c1)c2c34', 'C1C2CC3CC1CC(C2)C3', 'C12C3C4C1C5C2C3C45', 'c1ccc(cc1)-c1ccc(cc1)-c1ccccc1', 'C1CC2CCC1C2', 'C1CCC2(CC1)OCCO2',
              'C/C(F)=C/O/C=C(\\C)F', 'C/C(F)=C/Cl.C/C(F)=C\\Cl', 'C/C(F)=C/Cl.C/C(F)=C/Cl', 'CC(C)=CCC/C(C)=C/CC/C(C)=C/CC/C=C(\\C)CC/C=C(\\C)CCC=C(C)C',
              'C/C(N)=C/CC/C=C(/C)N', 'F/C(Cl)=C/C/C=C(/F)Cl', 'F/C(Cl)=C/C/C=C(\\F)Cl', 'O/N=C(/C)CC/C(C)=N/O', 'O/N=C(/C)CC/C(C)=N\\O', 'C1=CC=C1', 'C1=CC=CC=CC=C1', 'C1=CC=CC=CC=CC=CC=C1', 'C1=CC2=CC=C1C=C2', 'N1=CC=NC=C1', 'C1=CC=NC=CC=N1', 'C1CC2CCC1C2', 'C1CC2CCC1CC2', 'FC(Cl)=[C@]=C(Br)I', 'FC(Cl)=[C@@]=C(Br)I', 'FC=[C@]=CCl', 'CC=[C@@]=CF', 'CC(F)=[C@]=C(C)CC', 'C/C=C=C=C/C', 'C/C=C=C=C\\C', 'F/C(Cl)=C=C=C(/Br)I',
-             'CC=[C@]=C=C=CC', 'C[C@H](O)C=[C@@]=CC', 'CC=[C@]=CC/C=C/C', 'C1CCCC=[C@]=CCCC1', 'C[Fe]C', '[Fe+2].[O-]C=O.[O-]C=O', 'CC(C)C[C@H](N)C(=O)N[C@@H](C)C(O)=O']
+             'CC=[C@]=C=C=CC', 'C[C@H](O)C=[C@@]=CC', 'C(C[C@H](F)Cl)(C[C@H](F)Cl)C[C@@H](F)Cl', 'N(C[C@H](F)Cl)(C[C@H](F)Cl)C[C@@H](F)Cl', 'C(C/C=C/F)(C/C=C/F)C/C=C\\F',
+             'C(CC(F)=[C@]=CCl)(CC(F)=[C@]=CCl)CC(F)=[C@@]=CCl', 'C[C@H](F)C([C@H](C)F)([C@@H](C)F)[C@@H](C)F', 'F[C@H](Cl)C[C@@H](F)Cl', 'C(C[C@H](F)Cl)(C[C@H](F)Cl)C[C@H](F)Cl', 'CC=[C@]=CC/C=C/C', 'C1CCCC=[C@]=CCCC1', 'C[Fe]C', '[Fe+2].[O-]C=O.[O-]C=O', 'CC(C)C[C@H](N)C(=O)N[C@@H](C)C(O)=O']
     cases = [{'key': s, 'smi': s, 'rs': rnd.randrange(1 << 30), 'nrand': 3 if ck.quick else 6} for s in sel] + \
             [{'key': s, 'smi': s, 'rs': rnd.randrange(1 << 30), 'nrand': 6 if ck.quick else 20, 'nren': 10 if ck.quick else 40} for s in extra]
     cases = ck.select('actions', cases)
